@@ -337,6 +337,8 @@ def _shard_entry(fn, prop, tier, seed, i, args):
         return c.export()
     except BaseException:
         return {'error': traceback.format_exc()}
+    finally:
+        env.cleanup_tempdirs()
 
 
 def hsettings(max_examples, **kw):
